@@ -3,6 +3,8 @@ package main
 // C16 — data anchors / attestations / registrations are permanent.
 
 import (
+	"sort"
+	"regexp"
 	"fmt"
 	"go/token"
 	"go/types"
@@ -75,18 +77,11 @@ func checkC16(c *Ctx, e *Env) {
 		}
 		if s.Table.Name == "DataResolver" {
 			// row must consist solely of primary-key fields
-			fs, lit := literalRowFields(rowArg(s))
-			ok := lit
+			ok := true
 			var extra []string
 			pkSet := map[string]bool{}
 			for _, k := range s.Table.PK {
 				pkSet[snakeToCamel(k)] = true
-			}
-			for f := range fs {
-				if !pkSet[f] {
-					ok = false
-					extra = append(extra, f)
-				}
 			}
 			rowStruct := s.Table.Row.Underlying().(*types.Struct)
 			for i := 0; i < rowStruct.NumFields(); i++ {
@@ -134,107 +129,163 @@ func isNotFoundCall(v ssa.Value) (*ssa.Call, bool) {
 	return nil, false
 }
 
+// blockTimeTerm: the canonical term is the block time of the handler context, possibly passed
+// through the timestamp converters, and nothing else.
+var blockTimeTerm = regexp.MustCompile(`^((GogoToProtobufTimestamp|ProtobufToGogoTimestamp|TimestampProto|ts|time)\()*blocktime(\)|#0)*$`)
+
+// ruleC16First decides the first-seen discipline on the explored paths of every x/data handler
+// (E1): whichever helper the reads and writes live in, on each committed path
+//   - a DataAnchor row is written only by Insert, only after DataAnchor.Get for the same id came
+//     back NotFound on that path, and its timestamp is the block time;
+//   - a DataAttestor row is written only by Insert, only behind Has(id, signer) == false for the
+//     same key, with attestor = the signer-derived address and timestamp = block time;
+//   - Anchor's response carries the stored timestamp whenever the anchor already existed.
 func ruleC16First(c *Ctx, m *Model) {
 	p := m.P
-	fn := findFn(m, "x/data/v3/server", "anchorAndGetTimestamp")
-	if fn == nil {
-		// fall back: the function containing the DataAnchor insert
-		for _, f := range m.subjectFns(false) {
-			if len(ormCallsIn(m, f, "DataAnchor", "Insert")) > 0 && !isCanaryFn(f) {
-				fn = f
-			}
+	r := RunE1(m)
+	nAnchor, nAttest := 0, 0
+	type agg struct {
+		n   int
+		bad string
+		pos string
+	}
+	res := map[string]*agg{}
+	note := func(key, pos, bad string) {
+		a := res[key]
+		if a == nil {
+			a = &agg{pos: pos}
+			res[key] = a
+		}
+		a.n++
+		if bad != "" && a.bad == "" {
+			a.bad = bad
 		}
 	}
-	if fn == nil {
-		c.Undecide("C16.FIRST", "anchor-insert", "-", "no function inserting into DataAnchor found")
-		return
-	}
-	t := NewTermer(fn)
-	ins := ormCallsIn(m, fn, "DataAnchor", "Insert")
-	gets := ormCallsIn(m, fn, "DataAnchor", "Get")
-	if len(ins) != 1 || len(gets) != 1 {
-		c.Violate("C16.FIRST", "anchor#shape", p.Pos(fn.Pos()), fmt.Sprintf("expected one Get and one Insert on DataAnchor in %s, found %d and %d", fn.Name(), len(gets), len(ins)), nil)
-		return
-	}
-	get, in := gets[0], ins[0]
-	// the insert lies behind: Get error != nil AND IsNotFound(err)
-	errEx := extractOf(get, 1)
-	okNF := false
-	if errEx != nil {
-		for _, r := range *errEx.Referrers() {
-			if call, is := isNotFoundCall(asValue(r)); is {
-				if ifi, br := branchOf(call, true); ifi != nil && edgeDominates(ifi.Block(), br, in.Block()) {
-					okNF = true
+	for _, h := range r.Handlers {
+		if h.EP.Kind != "msg" {
+			continue
+		}
+		if h.Cut {
+			c.Undecide("C16.FIRST", h.Key, p.Pos(h.Fn.Pos()), "path exploration was cut short")
+			continue
+		}
+		signer := "addr(req." + h.EP.SignerField + ")"
+		for _, o := range h.Outs {
+			st := o.St
+			for i := range st.events {
+				ev := &st.events[i]
+				if ev.Kind != "write" || ev.Table == nil || !inScope(o, ev) {
+					continue
+				}
+				pos := p.Pos(ev.Pos.Pos())
+				path := " on path {" + clip(strings.Join(st.facts, " "), 300) + "}"
+				switch ev.Table.Name {
+				case "DataAnchor":
+					nAnchor++
+					key := h.Key + "#anchor"
+					bad := ""
+					id := st.canon(ev.Row["Id"])
+					switch {
+					case ev.OpKind != "insert":
+						bad = "DataAnchor written by " + ev.Method
+					case ev.Old == nil || !ev.Old.Absent:
+						bad = "DataAnchor.Insert is not behind a NotFound result of DataAnchor.Get for the same id " + id
+					case !blockTimeTerm.MatchString(st.canon(ev.Row["Timestamp"])):
+						bad = "anchor timestamp is " + st.canon(ev.Row["Timestamp"]) + ", not the block time"
+					}
+					if bad != "" {
+						bad += path
+					}
+					note(key, pos, bad)
+				case "DataAttestor":
+					nAttest++
+					key := h.Key + "#attest"
+					bad := ""
+					id, att := st.canon(ev.Row["Id"]), st.canon(ev.Row["Attestor"])
+					switch {
+					case ev.OpKind != "insert":
+						bad = "DataAttestor written by " + ev.Method
+					case !factBefore(st, "-Has:DataAttestor.Has("+id+", "+att+")", ev):
+						bad = "DataAttestor.Insert is not behind Has(" + id + ", " + att + ") == false"
+					case att != signer:
+						bad = "attestor is " + att + ", required the signer-derived " + signer
+					case !blockTimeTerm.MatchString(st.canon(ev.Row["Timestamp"])):
+						bad = "attestation timestamp is " + st.canon(ev.Row["Timestamp"]) + ", not the block time"
+					}
+					if bad != "" {
+						bad += path
+					}
+					note(key, pos, bad)
 				}
 			}
 		}
 	}
-	c.Check(okNF, "C16.FIRST", "anchor#insert-only-when-absent", p.Pos(in.Pos()), "DataAnchor.Insert is reached only through IsNotFound(err)==true of the Get for the same id")
-	// same key
-	rowFs, lit := literalRowFields(in.Call.Args[1])
-	idOK := lit && len(rowFs["Id"]) == 1 && t.T(rowFs["Id"][0]) == t.T(get.Call.Args[1])
-	c.Check(idOK, "C16.FIRST", "anchor#same-id", p.Pos(in.Pos()), "inserted row Id is the id that was looked up: "+t.T(get.Call.Args[1]))
-	tsOK := false
-	tsTerm := ""
-	if lit && len(rowFs["Timestamp"]) == 1 {
-		tsTerm = t.T(rowFs["Timestamp"][0])
-		tsOK = strings.Contains(tsTerm, "Context.BlockTime(UnwrapSDKContext("+fn.Params[1].Name()+"))") && !strings.Contains(tsTerm, "Now")
+	var keys []string
+	for k := range res {
+		keys = append(keys, k)
 	}
-	c.Check(tsOK, "C16.FIRST", "anchor#block-time", p.Pos(in.Pos()), "anchor timestamp derives from the block time of the handler context: "+tsTerm)
-	// every success return not behind the insert returns the stored timestamp
-	rowEx := extractOf(get, 0)
-	okStored := true
-	det := ""
-	for _, r := range successReturns(fn) {
-		if in.Block().Dominates(r.Block()) {
-			continue
-		}
-		tm := t.T(r.Results[0])
-		if rowEx == nil || !strings.Contains(tm, t.T(rowEx)+".Timestamp") {
-			okStored = false
-			det = tm
+	sort.Strings(keys)
+	for _, k := range keys {
+		a := res[k]
+		if a.bad != "" {
+			c.Violate("C16.FIRST", k, a.pos, a.bad, nil)
+		} else if strings.HasSuffix(k, "#anchor") {
+			c.Hold("C16.FIRST", k, a.pos, fmt.Sprintf("%d explored anchor writes: Insert only, behind NotFound of the Get for that id, timestamp = block time", a.n), nil)
+		} else {
+			c.Hold("C16.FIRST", k, a.pos, fmt.Sprintf("%d explored attestation writes: Insert only, behind Has(id, signer) == false, attestor = signer, timestamp = block time", a.n), nil)
 		}
 	}
-	c.Check(okStored, "C16.FIRST", "anchor#returns-stored", p.Pos(fn.Pos()), "when the anchor exists the stored timestamp is returned unchanged "+det)
-
-	// Attest
-	var att *EntryPoint
-	for _, ep := range m.Entries {
-		if ep.Kind == "msg" && ep.Name == "Attest" && ep.Implemented {
-			att = ep
+	c.Min("explored DataAnchor writes", 3, nAnchor)
+	c.Min("explored DataAttestor writes", 1, nAttest)
+	// Anchor's response: stored timestamp when the anchor existed, block time when it was created
+	if h := r.byKey["data.Anchor"]; h == nil {
+		c.Undecide("C16.FIRST", "data.Anchor#response", "-", "Anchor handler not found")
+	} else {
+		bad := ""
+		n := 0
+		for _, o := range h.Outs {
+			if o.Kind != exitReturn || len(o.Rets) == 0 {
+				continue
+			}
+			st := o.St
+			rp, ok := o.Rets[0].(*Ptr)
+			if !ok || st.mem[rp.O] == nil {
+				bad = "response is not a locally built message"
+				continue
+			}
+			ts := ""
+			if v, ok := st.mem[rp.O].F[".Timestamp"]; ok {
+				ts = st.canon(v)
+			}
+			created := false
+			for i := range st.events {
+				if ev := &st.events[i]; ev.Kind == "write" && ev.Table != nil && ev.Table.Name == "DataAnchor" {
+					created = true
+				}
+			}
+			n++
+			if created {
+				if !blockTimeTerm.MatchString(ts) {
+					bad = "response timestamp after a first anchoring is " + ts
+				}
+				continue
+			}
+			okStored := false
+			for _, row := range st.mem {
+				if row.Table != nil && row.Table.Name == "DataAnchor" && row.Kind == "row" {
+					for _, w := range []string{row.Name + ".Timestamp", "ProtobufToGogoTimestamp(" + row.Name + ".Timestamp)"} {
+						if ts == w || ts == st.find(w) {
+							okStored = true
+						}
+					}
+				}
+			}
+			if !okStored {
+				bad = "response timestamp on the already-anchored path is " + ts + ", not the stored DataAnchor timestamp"
+			}
 		}
+		c.Check(bad == "" && n >= 2, "C16.FIRST", "data.Anchor#response", p.Pos(h.Fn.Pos()), fmt.Sprintf("%d committed paths: the response carries the stored timestamp when the anchor existed and the block time when it was created %s", n, bad))
 	}
-	if att == nil || att.Fn == nil {
-		c.Undecide("C16.FIRST", "attest", "-", "Attest handler not found")
-		return
-	}
-	af := att.Fn
-	at := NewTermer(af)
-	ains := ormCallsIn(m, af, "DataAttestor", "Insert")
-	ahas := ormCallsIn(m, af, "DataAttestor", "Has")
-	if len(ains) != 1 || len(ahas) != 1 {
-		c.Violate("C16.FIRST", "attest#shape", p.Pos(af.Pos()), fmt.Sprintf("expected one Has and one Insert on DataAttestor, found %d and %d", len(ahas), len(ains)), nil)
-		return
-	}
-	has, ain := ahas[0], ains[0]
-	okHas := false
-	if fEx := extractOf(has, 0); fEx != nil {
-		if ifi, br := branchOf(fEx, false); ifi != nil && edgeDominates(ifi.Block(), br, ain.Block()) {
-			okHas = true
-		}
-	}
-	c.Check(okHas, "C16.FIRST", "attest#insert-only-when-absent", p.Pos(ain.Pos()), "DataAttestor.Insert is reached only through Has(id, attestor)==false")
-	afs, alit := literalRowFields(ain.Call.Args[1])
-	reqName := af.Params[len(af.Params)-1].Name()
-	wantAddr := "AccAddressFromBech32(" + reqName + "." + att.SignerField + ")#0"
-	sameKey := alit && len(afs["Id"]) == 1 && len(afs["Attestor"]) == 1 &&
-		at.T(afs["Id"][0]) == at.T(has.Call.Args[1]) && at.T(afs["Attestor"][0]) == at.T(has.Call.Args[2]) && at.T(afs["Attestor"][0]) == wantAddr
-	c.Check(sameKey, "C16.FIRST", "attest#key", p.Pos(ain.Pos()), "attestation row key is (looked-up id, "+wantAddr+") and equals the key tested by Has")
-	tsA := ""
-	if alit && len(afs["Timestamp"]) == 1 {
-		tsA = at.T(afs["Timestamp"][0])
-	}
-	c.Check(strings.Contains(tsA, "Context.BlockTime(UnwrapSDKContext("+af.Params[1].Name()+"))"), "C16.FIRST", "attest#block-time", p.Pos(ain.Pos()), "attestation timestamp derives from the block time: "+tsA)
 }
 
 func extractOf(call *ssa.Call, idx int) *ssa.Extract {
